@@ -31,6 +31,9 @@ const (
 type OptInEvent struct {
 	type_ OptInEventType
 	optIn *flows.OptIn
+
+	// the reference as it was read, so that a trigger whose optin is missing from the assets can still be marshaled
+	optInRef *assets.OptInReference
 }
 
 // OptInTrigger is used when a session was triggered by an optin or optout.
@@ -121,6 +124,7 @@ func readOptInTrigger(sa flows.SessionAssets, data json.RawMessage, missing asse
 	t.event.optIn = sa.OptIns().Get(e.Event.OptIn.UUID)
 	if t.event.optIn == nil {
 		missing(e.Event.OptIn, nil)
+		t.event.optInRef = e.Event.OptIn
 	}
 
 	if err := t.unmarshal(sa, &e.baseTriggerEnvelope, missing); err != nil {
@@ -132,10 +136,15 @@ func readOptInTrigger(sa flows.SessionAssets, data json.RawMessage, missing asse
 
 // MarshalJSON marshals this trigger into JSON
 func (t *OptInTrigger) MarshalJSON() ([]byte, error) {
+	optInRef := t.event.optIn.Reference()
+	if optInRef == nil {
+		optInRef = t.event.optInRef
+	}
+
 	e := &optInTriggerEnvelope{
 		Event: &optInEventEnvelope{
 			Type:  t.event.type_,
-			OptIn: t.event.optIn.Reference(),
+			OptIn: optInRef,
 		},
 	}
 
